@@ -70,6 +70,8 @@ func main() {
 		os.Exit(cmdLock())
 	case "units":
 		cmdUnits()
+	case "alarms":
+		os.Exit(cmdAlarms(os.Args[2:]))
 	case "seeded":
 		os.Exit(cmdSeeded(os.Args[2:]))
 	case "selftest":
